@@ -322,7 +322,7 @@ func bitWidth64(t types.Type) int {
 func (e *Engine) globalAddr(g *ssa.Global) Val {
 	elem := g.Type().(*types.Pointer).Elem()
 	id := e.globalRef(g)
-	return Val{Typ: g.Type(), Terms: []*smt.Term{id}, Ptr: e.wholePtr(elem)}
+	return Val{Typ: g.Type(), Terms: []*smt.Term{id}, Ptr: e.wholePtr(elem), Glob: g}
 }
 
 // globalRef gives each global a distinct, pre-allocated reference (negative numbers are never allocated).
@@ -618,7 +618,7 @@ func (e *Engine) sliceOp(f *frame, st *State, x *ssa.Slice, pos string) Val {
 			hi = ln
 		}
 		e.oblige(st, "index", "", c.And(le(z, lo), le(lo, hi), le(hi, ln)), pos, "string slice bounds")
-		r := c.App("str.sub", smt.Str, s, lo, hi)
+		r := c.App("gs.sub", smt.Str, s, lo, hi)
 		e.assume(st, c.Eq(e.strLen(r), c.Op("bvsub", smt.BV(64), hi, lo)))
 		return Val{Typ: x.Type(), Terms: []*smt.Term{r}}
 	}
